@@ -796,3 +796,28 @@ Qed.
 From Wbxml Require Model.EncWbxmlTables.
 Lemma all_tables_tag_ok o : forallb (fun l => tag_tbl_ok (enc_env l o)) Wbxml.Model.EncWbxmlTables.main_btable = true.
 Proof. vm_compute. reflexivity. Qed.
+
+(* ---- (d) embedded trees: the OPAQUE that stands for an embedded tree holds a document of its own ------------------------------ *)
+(* the encoder of the embedded tree is the outer one with the embedded language, never anonymous *)
+Definition embedded_opts (e : env) : options :=
+  mk_opts (e_version e) (e_use_strtbl e) (negb (e_remove_blanks e)) false.
+
+Theorem embedded_tree_is_document tbl e par lid l' tag attrs ch st items st' :
+  e_ignore_empty e = e_remove_blanks e -> find_lang tbl lid = Some l' ->
+  tag_tbl_ok (enc_env l' (embedded_opts e)) = true -> frag5_node (NElt tag attrs ch) = true ->
+  abs_node5 tbl e par (NTree lid [NElt tag attrs ch]) st = Some (items, st') ->
+  exists doc, items = [S.WItemStr (S.WOpaque doc)] /\ enc_wbxml tbl l' (embedded_opts e) [NElt tag attrs ch] = EOk doc /\
+    (len doc < 4294967296 -> exists d', doc = S.serialize d' /\ S.strict_doc d' = true).
+Proof.
+  intros Ho HF HTB HFr. cbn [abs_node5]. rewrite HF. cbv zeta.
+  assert (Ee : make_env l' (e_use_strtbl e) (e_ignore_empty e) (e_remove_blanks e) (e_version e) false = enc_env l' (embedded_opts e)).
+  { unfold enc_env, embedded_opts. cbn [o_use_strtbl o_keep_ws o_version o_anonymous]. now rewrite negb_involutive, Ho. }
+  rewrite Ee.
+  destruct (parse_nodes tbl (enc_env l' (embedded_opts e)) None [NElt tag attrs ch] (start_state (enc_env l' (embedded_opts e)) [NElt tag attrs ch])) as [[body st0]|c] eqn:PN; [|discriminate].
+  intros E; injection E as <- <-.
+  assert (EW : enc_wbxml tbl l' (embedded_opts e) [NElt tag attrs ch] = EOk (fill_header (enc_env l' (embedded_opts e)) st0 ++ body)).
+  { rewrite enc_wbxml_form_local. unfold enc_body. cbv zeta. now rewrite PN. }
+  eexists. split; [reflexivity|]. split; [exact EW|]. intros Hlen.
+  destruct (enc_wbxml_full tbl l' (embedded_opts e) tag attrs ch _ HTB HFr EW Hlen) as (b & s2 & root & _ & _ & HS & Hst).
+  now exists (abs_doc2 (enc_env l' (embedded_opts e)) s2 root).
+Qed.
